@@ -92,6 +92,8 @@ func evalCanon(data []byte, final bool) (s string, err error) {
 	return Canon(v, final), nil
 }
 
+func newCtx() *cue.Context { return cuecontext.New() }
+
 func withTimeout(d time.Duration, f func()) bool {
 	done := make(chan struct{})
 	go func() { defer close(done); f() }()
@@ -113,6 +115,51 @@ func main() {
 	fmt.Println("corpus files:", len(srcs))
 	rng := rand.New(rand.NewSource(1))
 	switch cmd {
+	case "obsperm":
+		N := 2000
+		diffs, errs := 0, 0
+		for seed := int64(0); seed < int64(N); seed++ {
+			src := []byte(GenProgram(seed))
+			r0, e0 := ObserveSrc(src, "raw")
+			f0, _ := ObserveSrc(src, "final")
+			if e0 != nil {
+				errs++
+				continue
+			}
+			for trial := 0; trial < 3; trial++ {
+				f, err := parser.ParseFile("x.cue", src)
+				if err != nil {
+					break
+				}
+				permuteFile(rng, f)
+				b, _ := format.Node(f)
+				r1, e1 := ObserveSrc(b, "raw")
+				f1, _ := ObserveSrc(b, "final")
+				if e1 != nil || r1 != r0 || f1 != f0 {
+					diffs++
+					if !strings.Contains(r0, "_|_") {
+						fmt.Println("DIFF-IN-ERROR-FREE-PROGRAM seed", seed)
+					}
+					if diffs <= 8 {
+						a, bb := r0, r1
+						if a == bb {
+							a, bb = f0, f1
+						}
+						i := 0
+						for i < len(a) && i < len(bb) && a[i] == bb[i] {
+							i++
+						}
+						lo := i - 60
+						if lo < 0 {
+							lo = 0
+						}
+						fmt.Printf("OBS-PERM-DIFF seed %d err=%v\n--- orig\n%s--- perm\n%s  A: ...%.160s\n  B: ...%.160s\n", seed, e1, src, b, a[lo:], bb[lo:])
+					}
+					break
+				}
+			}
+		}
+		fmt.Println("programs", N, "compile errors", errs, "diffs", diffs)
 	case "genperm", "genrt":
 		N := 3000
 		diffs := 0
